@@ -9,6 +9,7 @@ CONSTANTS
   InputOps = {}
   Entries = {"run", "call", "evaluate"}
   TracerStyles = {"none", "native", "calls"}
+  Threadeds = {FALSE}
   Flags = {"tracer_conditional_restore"}
 INVARIANT Restored
 INVARIANT Contained
